@@ -189,6 +189,27 @@ def families(tier, seed):
 
 from symgeo.run import Family  # noqa: E402
 
+def _twin_segment_upper():
+    """mutant: Segment.__contains__ forgets the upper bound of the relative length"""
+    import Geometry3D.geometry.segment as sg
+    from Geometry3D.utils.constant import get_eps
+
+    def contains(self, other):
+        if isinstance(other, Point):
+            r1 = other in self.line
+            v = Vector(self.start_point, self.end_point)
+            v1 = Vector(self.start_point, other)
+            if v1.length() < get_eps():
+                return True
+            rel = v1 * v / (v.length()) / (v.length())
+            return r1 and (rel > -get_eps())
+        return (other.start_point in self) and (other.end_point in self)
+    sg.Segment.__contains__ = contains
+
+
+TWINS = {'Segment.__contains__ without upper bound': (r'^point_in/Segment/axis/f0$', _twin_segment_upper)}
+
+
 META = dict(
     title='membership agrees with exact containment',
     level_text=('Bounded symbolic model checking of the real `__contains__`/`in_` code: the candidate is an affine function of 2-3 real '
